@@ -181,7 +181,7 @@ func cancelIdempotent(c *an.Ctx, r *runnerRoles, rule string) {
 			if u, ok := v.(*ssa.UnOp); ok && u.Op == token.NOT {
 				v, neg = u.X, true
 			}
-			if an.FieldProv(v) == "TaskRunner.canceling" && (gd.Outcome != neg) == false {
+			if an.FieldProv(v) == resolveRunnerState(p).canceling && (gd.Outcome != neg) == false {
 				return true
 			}
 		}
@@ -226,7 +226,7 @@ func cancelIdempotent(c *an.Ctx, r *runnerRoles, rule string) {
 			isEffect := false
 			what := ""
 			if call, ok := in.(*ssa.Call); ok {
-				if an.FieldProv(call.Call.Value) == "TaskRunner.cancelFunc" {
+				if an.FieldProv(call.Call.Value) == resolveRunnerState(p).cancel {
 					isEffect, what = true, "cancelFunc()"
 				}
 			}
@@ -257,7 +257,7 @@ func runGate(c *an.Ctx, r *runnerRoles, rule string) {
 	var errCall *ssa.Call
 	for _, fn := range r.scope {
 		an.EachInstr(fn, func(in ssa.Instruction) {
-			if call, ok := in.(*ssa.Call); ok && call.Call.IsInvoke() && call.Call.Method.Name() == "Err" && an.FieldProv(call.Call.Value) == "TaskRunner.ctx" {
+			if call, ok := in.(*ssa.Call); ok && call.Call.IsInvoke() && call.Call.Method.Name() == "Err" && an.FieldProv(call.Call.Value) == resolveRunnerState(c.P).ctx {
 				f, errCall = fn, call
 			}
 		})
@@ -291,7 +291,7 @@ func runGate(c *an.Ctx, r *runnerRoles, rule string) {
 				}
 			}
 		})
-		if groupKey(rlock.OnVal) != "TaskRunner.cancelMutex" {
+		if groupKey(rlock.OnVal) != resolveRunnerState(c.P).mutex {
 			okReg = false
 		}
 	}
@@ -346,7 +346,7 @@ func runnerContext(c *an.Ctx, r *runnerRoles, rule string) {
 					name string
 				}{fn, kind}
 				key := an.Short(ph.fn) + ":Execute(ctx," + kind + ")"
-				good := len(provs) == 1 && provs["TaskRunner.ctx"]
+				good := len(provs) == 1 && provs[resolveRunnerState(p).ctx]
 				if ph.name == "condition" {
 					if !good {
 						c.Note(rule, key, in.Pos(), "the condition job runs under %v, not the runner's context (outside the statement's injection points)", ps)
@@ -406,9 +406,9 @@ func runnerContext(c *an.Ctx, r *runnerRoles, rule string) {
 				return
 			}
 			switch an.TypeField(fa) {
-			case "TaskRunner.ctx":
+			case resolveRunnerState(p).ctx:
 				ctxStores = append(ctxStores, st)
-			case "TaskRunner.cancelFunc":
+			case resolveRunnerState(p).cancel:
 				cancelStores = append(cancelStores, st)
 			}
 		})
@@ -420,7 +420,7 @@ func runnerContext(c *an.Ctx, r *runnerRoles, rule string) {
 		good = ok0 && ok1 && e0.Tuple == e1.Tuple && e0.Index == 0 && e1.Index == 1
 		if good {
 			call, ok := e0.Tuple.(*ssa.Call)
-			good = ok && an.ShortCallee(&call.Call) == "context.WithCancel" && an.Short(ctxStores[0].Parent()) == "pkg/runner.NewTaskRunner"
+			good = ok && an.ShortCallee(&call.Call) == "context.WithCancel" && onlyUnderConstructor(p, ctxStores[0].Parent())
 		}
 	}
 	c.Check(good, rule, "TaskRunner.ctx/cancelFunc:pair", r.cancel.Pos(), "ctx and cancelFunc are one WithCancel pair, assigned only in the constructor", "TaskRunner.ctx and cancelFunc are not a single WithCancel pair assigned once in the constructor: Cancel may cancel a context the commands do not run under")
@@ -451,6 +451,29 @@ func serviceCommandSite(fn *ssa.Function, job ssa.Value) bool {
 	for _, src := range srcs {
 		al, ok := src.(*ssa.Alloc)
 		if !ok || al.Parent() != fn || !an.TypeIs(al.Type(), "pkg/executor", "Job") {
+			return false
+		}
+	}
+	return true
+}
+
+// onlyUnderConstructor reports whether fn is NewTaskRunner or a function of
+// pkg/runner that only NewTaskRunner calls (an init method of the state it
+// builds).
+func onlyUnderConstructor(p *an.Prog, fn *ssa.Function) bool {
+	ctor := p.Func("pkg/runner", "", "NewTaskRunner")
+	if ctor == nil {
+		return false
+	}
+	if fn == ctor {
+		return true
+	}
+	sites := p.CallSitesOf(fn)
+	if len(sites) == 0 {
+		return false
+	}
+	for _, s := range sites {
+		if an.Outer(s.Parent()) != ctor {
 			return false
 		}
 	}
